@@ -307,6 +307,14 @@ func selfTestModel() error {
 			return errors.New("c06: reference accepted an out-of-range / t=0 pair")
 		}
 	}
+	// the x1 >= n construction
+	P, ss, tt, X := x1OverflowKey(3)
+	if X.X.Cmp(bigN) < 0 || !ref.SM2.OnCurve(X) || !ref.SM2.OnCurve(P) || P.Inf {
+		return errors.New("c06: x1OverflowKey point")
+	}
+	if got := ref.SM2.Add(ref.SM2.BaseMul(ss), ref.SM2.Mul(tt, P)); !ref.SM2.Equal(got, X) {
+		return errors.New("c06: x1OverflowKey does not reproduce the chosen point")
+	}
 	// honest base verifies; nonce recovery closes the loop with the signer
 	b := honestBase(d, 5, 16, 1, 100, 2)
 	if !ref.SM2VerifyRS(b.Pub, b.E, b.R, b.S) {
